@@ -1,14 +1,18 @@
 #!/usr/bin/env python3
-"""Sensitivity run: apply each planted mutant to /repo's working tree, run the quick check of the
-property it breaks, revert.  Usage: python3 tools/mutants.py [name-substring ...]
+"""Sensitivity run: apply each planted mutant to a scratch worktree of /repo, run the quick check of the
+property it breaks against that tree (VERIF_REPO), remove the worktree.
+Usage: python3 tools/mutants.py [-j N] [name-substring ...]
 
-Never commits to /repo; always reverts with `git checkout -- .` (also on interrupt).
-Results are appended to tools/mutants_result.json.
+/repo itself is never touched; evidence and replays of these runs go to a scratch directory.
+Results are merged into tools/mutants_result.json.
 """
 import json
+import os
+import shutil
 import subprocess
 import sys
 import time
+from concurrent.futures import ThreadPoolExecutor
 from pathlib import Path
 
 VERIF = Path(__file__).resolve().parent.parent
@@ -21,6 +25,9 @@ M = [
     ("c01_rk2_fractional_dropped", "C01", "ladim/tracker.py", "return force.velocity(X1, Y1, Z, fractional_step=0.5)", "return force.velocity(X1, Y1, Z)"),
     ("c01_dtdy_dtdx", "C01", "ladim/tracker.py", "Y1 = Y + V * self.dt / self.dy", "Y1 = Y + V * self.dt / self.dx"),
     ("c01_helper_m", "C01", "ladim/analytical.py", "m = 1.0 / (2 * s)", "m = 1.0 / s"),
+    ("c01_metric_j0_i0", "C01", "ladim/ROMS.py", "        J = Y.round().astype(int) - self.j0\n\n        # Metric is conform", "        J = Y.round().astype(int) - self.i0\n\n        # Metric is conform"),
+    ("c01_metric_dy_separate", "C01", "ladim/ROMS.py", "        A = self.dx[J, I]\n        return A, A", "        return self.dx[J, I], self.dy[I % self.dy.shape[0], J % self.dy.shape[1]]"),
+    ("c01_stock_fractional_rk4_last", "C01", "ladim/tracker.py", "U4, V4 = force.velocity(X3, Y3, Z, fractional_step=1.0)", "U4, V4 = force.velocity(X3, Y3, Z, fractional_step=0.5)"),
     ("c02_stagger_swapped", "C02", "ladim/ROMS.py", "sample3D(U, X + 0.5, Y, K, A, method=method),", "sample3D(U, X, Y + 0.5, K, A, method=method),"),
     ("c02_mask_u_one_sided", "C02", "ladim/ROMS.py", "Mu[:, 1:-1] = M[:, :-1] * M[:, 1:]", "Mu[:, 1:-1] = M[:, :-1]"),
     ("c02_weight_complement", "C02", "ladim/ROMS.py", "A[n] = (zr[k] + Z[n]) / (zr[k] - zr[k - 1])", "A[n] = 1 - (zr[k] + Z[n]) / (zr[k] - zr[k - 1])"),
@@ -82,42 +89,60 @@ M = [
 ]
 
 
+SCRATCH = Path(os.environ.get("VERIF_SEED_SCRATCH", "/tmp/verif_seeded"))
+
+
 def sh(cmd, **kw):
     return subprocess.run(cmd, shell=True, capture_output=True, text=True, **kw)
 
 
-def main():
-    sel = sys.argv[1:]
-    if sh("git -C /repo status --porcelain").stdout.strip():
-        print("refusing: /repo working tree is not clean")
-        return 2
-    results = []
+def run_one(m, workers):
+    name, prop, file, old, new = m
+    wt = SCRATCH / f"mut_{name}_{os.getpid()}"
+    evd = SCRATCH / f"mutev_{name}_{os.getpid()}"
+    SCRATCH.mkdir(parents=True, exist_ok=True)
     try:
-        for name, prop, file, old, new in M:
-            if sel and not any(s in name for s in sel):
-                continue
-            p = REPO / file
-            src = p.read_text()
-            if src.count(old) < 1:
-                print(f"{name}: PATTERN NOT FOUND")
-                results.append(dict(name=name, property=prop, status="pattern_not_found"))
-                continue
-            p.write_text(src.replace(old, new, 1))
-            t0 = time.time()
-            r = sh(f"cd {VERIF} && ./check {prop} --tier quick", timeout=1500)
-            p.write_text(src)
-            caught = r.returncode == 1 and "VIOLATION property=" in r.stdout
-            sigs = sorted(set(l.split("sig=")[1].split(":")[0] for l in r.stdout.splitlines() if l.startswith("violation ")))
-            print(f"{name}: {'CAUGHT' if caught else 'MISSED'} rc={r.returncode} {time.time() - t0:.0f}s {sigs[:4]}")
-            if r.returncode == 2:
-                print(r.stderr[-600:])
-            results.append(dict(name=name, property=prop, caught=caught, rc=r.returncode, sigs=sigs, wall=round(time.time() - t0)))
+        r = sh(f"git -C {REPO} worktree add --detach {wt} HEAD")
+        if r.returncode:
+            return dict(name=name, property=prop, status="worktree_failed: " + r.stderr[-200:])
+        p = wt / file
+        src = p.read_text()
+        if src.count(old) < 1:
+            print(f"{name}: PATTERN NOT FOUND", flush=True)
+            return dict(name=name, property=prop, status="pattern_not_found")
+        p.write_text(src.replace(old, new, 1))
+        t0 = time.time()
+        env = dict(os.environ, VERIF_REPO=str(wt), VERIF_EVIDENCE_DIR=str(evd), VERIF_REPLAY_DIR=str(evd / "replays"),
+                   VERIF_WORKERS=str(workers))
+        r = sh(f"cd {VERIF} && ./check {prop} --tier quick", timeout=3000, env=env)
+        caught = r.returncode == 1 and "VIOLATION property=" in r.stdout
+        sigs = sorted(set(l.split("sig=")[1].split(":")[0] for l in r.stdout.splitlines() if l.startswith("violation ")))
+        print(f"{name}: {'CAUGHT' if caught else 'MISSED'} rc={r.returncode} {time.time() - t0:.0f}s {sigs[:4]}", flush=True)
+        if r.returncode == 2:
+            print(r.stderr[-600:])
+        return dict(name=name, property=prop, caught=caught, rc=r.returncode, sigs=sigs, wall=round(time.time() - t0))
     finally:
-        sh("git -C /repo checkout -- .")
+        sh(f"git -C {REPO} worktree remove --force {wt}")
+        shutil.rmtree(wt, ignore_errors=True)
+        shutil.rmtree(evd, ignore_errors=True)
+        sh(f"git -C {REPO} worktree prune")
+
+
+def main():
+    args = sys.argv[1:]
+    jobs = 4
+    if args[:1] == ["-j"]:
+        jobs = int(args[1])
+        args = args[2:]
+    todo = [m for m in M if not args or any(a in m[0] for a in args)]
+    with ThreadPoolExecutor(jobs) as ex:
+        results = list(ex.map(lambda m: run_one(m, max(2, 16 // jobs)), todo))
     out = VERIF / "tools" / "mutants_result.json"
     prev = json.loads(out.read_text()) if out.exists() else []
     names = {r["name"] for r in results}
     out.write_text(json.dumps([r for r in prev if r["name"] not in names] + results, indent=1) + "\n")
+    missed = [r["name"] for r in results if not r.get("caught")]
+    print(f"{len(results) - len(missed)} of {len(results)} caught; missed: {missed}")
     return 0
 
 
